@@ -59,7 +59,7 @@ func markersDrive(args []string) {
 			} else {
 				s = lib.RandBytes(r, lib.PayloadTokens, *maxTok)
 			}
-			judgeMarkers(rep, s, nil)
+			rep.Guard("markers:panic", markersCase{"markers", s}, func() { judgeMarkers(rep, s, nil) })
 			if !tw.Full() && len(s) <= 60 {
 				rs := redact.RedactableString(s)
 				tw.Emit(map[string]interface{}{"k": "markers", "s": lib.B(s), "strip": lib.B(rs.StripMarkers()),
@@ -84,7 +84,7 @@ func escapeDrive(args []string) {
 	shard(*n, lib.Seed(), func(r *rand.Rand, cnt int) {
 		for i := 0; i < cnt; i++ {
 			b := lib.RandBytes(r, lib.PayloadTokens, *maxTok)
-			judgeEscape(rep, b, nil)
+			rep.Guard("escape:panic", escapeCase{"escape", b}, func() { judgeEscape(rep, b, nil) })
 			if !tw.Full() && len(b) <= 60 {
 				k := r.Intn(len(b) + 1)
 				brk, strip := r.Intn(2) == 0, r.Intn(4) == 0
@@ -194,7 +194,7 @@ func bufferDrive(args []string) {
 							tw.Emit(map[string]interface{}{"k": "bufout", "pre": post, "out": lib.B(b.RedactableString())})
 						}
 					}
-					if r.Intn(4) == 0 || j == L-1 {
+					if r.Intn(2) == 0 || j == L-1 {
 						// judge every so often and at the end, on a replay (so that variants are exercised too)
 						v := r.Intn(4)
 						st, out, acc, p, imp := runBufHistory(h, v)
